@@ -43,7 +43,13 @@ def _burrow_ite[T: Base](expr: T) -> T:
         return expr
 
     different_idx = matches.index(False)
-    inner_if = claripy.If(expr.args[0], old_true.args[different_idx], old_false.args[different_idx])
+    new_true, new_false = old_true.args[different_idx], old_false.args[different_idx]
+    if not (isinstance(new_true, Base) and isinstance(new_false, Base)) or getattr(new_true, "length", None) != getattr(
+        new_false, "length", None
+    ):
+        # the two cannot be the branches of an If (e.g. Extract of operands of different sizes)
+        return expr
+    inner_if = claripy.If(expr.args[0], new_true, new_false)
     new_args = list(old_true.args)
     new_args[different_idx] = burrow_ite(inner_if)
     return old_true.__class__(old_true.op, new_args, length=expr.length)
